@@ -496,6 +496,29 @@ def run(ctx):
         else:
             chk.bad(R5, f'{ZL}.{mname}', 'proxy test', f'{mname}() no longer tests the proxy flag first: after the switch it would use the stale compressed stream', where=f'{zcls.module.relpath}:{mf.lineno}')
 
+    # the public seek() hands its arguments to _seek_internal unchanged: every conversion of (target, whence) happens behind the proxy test of
+    # _seek_internal (own position `_pos` is stale once the stream reads from the uncompressed copy)
+    zseek = zcls.methods.get('seek')
+    chk.require(zseek is not None, f'{ZL}.seek not found')
+    zp = [p_ for p_ in zseek.params if p_ != 'self'][:2]
+    rebinds = [n for n in walk_local(zseek.node) if isinstance(n, (ast.Assign, ast.AugAssign, ast.AnnAssign)) and
+               any(isinstance(t, ast.Name) and t.id in zp for tt in ([n.target] if not isinstance(n, ast.Assign) else n.targets) for t in ast.walk(tt))]
+    deleg = [c for c in walk_local(zseek.node) if isinstance(c, ast.Call) and isinstance(c.func, ast.Attribute) and c.func.attr == '_seek_internal']
+    okdel = len(deleg) == 1 and [norm(a) for a in deleg[0].args] + [norm(k.value) for k in deleg[0].keywords] == zp and not rebinds
+    proxy_ret = True
+    for mname in ('read', 'tell', '_seek_internal'):
+        mf = zcls.methods.get(mname)
+        body = [s_ for s_ in mf.node.body if not (isinstance(s_, ast.Expr) and isinstance(s_.value, ast.Constant))]
+        first_if = next((s_ for s_ in body if isinstance(s_, ast.If)), None)
+        if first_if is None or not (first_if.body and isinstance(first_if.body[-1], ast.Return)):
+            proxy_ret = False
+    if okdel and proxy_ret:
+        chk.ok(R5, zseek.qualname, norm(deleg[0]), detail='seek() delegates its (target, whence) unchanged; read/tell/_seek_internal return from the proxy branch before touching their own position')
+    else:
+        what = rebinds[0] if rebinds else (deleg[0] if deleg else zseek.node)
+        chk.bad(R5, zseek.qualname, norm(what)[:100], 'seek() rewrites its target/whence (or the proxy branch of read/tell/_seek_internal does not return) before the proxy test: once the stream reads from the '
+                'uncompressed copy the decompresser\'s own position is stale, so a relative seek computed from it lands at a wrong offset', where=f'{zseek.module.relpath}:{getattr(what, "lineno", zseek.lineno)}')
+
     # ---------------------------------------------------------------- R8: decompresser position bookkeeping and seek loop shape
     R8 = chk.rule('C07.R8', 'decompresser: position advanced by exactly the bytes handed out; forward seek reads at most up to the target; a backward target rewinds first', 3)
     rc = zcls.methods.get('_read_compressed')
